@@ -151,6 +151,18 @@ def c12(ctx):
     return [Native("probes", "c12")]
 
 
+def c13(ctx):
+    return [SelfTest(), Native("ids", "c13")]
+
+
+def c14(ctx):
+    return [Native("claims", "c14")]
+
+
+def c15(ctx):
+    return [Native("pae", "c15")]
+
+
 PROPS = {
     "C01": {
         "level": "exploration",
@@ -258,5 +270,29 @@ PROPS = {
         "stages": c12,
         "floor": {"quick": 40000, "thorough": 150000},
         "required_classes": ["positive-controls"],
+    },
+    "C13": {
+        "level": "exploration",
+        "level_text": "Key-id monitor: for thousands of generated keys per backend the lid/sid/pid is compared with a reference digest computed by the other primitive family over the id header and the key's canonical PASERK text, and must be stable across clone, text and raw round-trips (PEM vs DER for v1), pairwise distinct for related keys, identical on sibling backends and round-trip through its text form. Id strings of every decoded length 0..70 are offered (only 33 bytes may pass) and 10^4 id pairs are compared for Eq/Ord/Hash against their bytes.",
+        "level_note": "Trusted: reference digest (self-tested against the official id vectors on each run) and the harness's base64 codec.",
+        "technique": "runtime differential monitor of key ids against an independent reference digest",
+        "stages": c13,
+        "floor": {"quick": 20000, "thorough": 300000},
+    },
+    "C14": {
+        "level": "exploration",
+        "level_text": "Wire-form monitor for paseto-json: every presence pattern of the seven registered claims with hostile strings and timestamps across jiff's whole range is encoded, the wire form is inspected with a generic JSON parser (object, only present claims, equal strings, timestamps parsed by the harness's own strict RFC 3339 parser and compared to the nanosecond) and decoded back field-wise; tens of thousands of generated JSON objects (unknown, duplicated, null, wrong-typed, deeply nested members, several timestamp spellings, member permutations) are decoded and, whenever decoding succeeds, compared member by member with serde_json::Value; the Json<T> payload/footer wrappers are compared with serde_json directly.",
+        "level_note": "Trusted: serde_json::Value as the 'generic JSON parser' of the property, and the harness's RFC 3339 parser / days-from-civil arithmetic. RFC 3339 cannot express years outside 0000..9999; such timestamps are only required to round-trip.",
+        "technique": "runtime round-trip and differential monitor against a generic JSON parser and an independent RFC 3339 parser",
+        "stages": c14,
+        "floor": {"quick": 20000, "thorough": 300000},
+    },
+    "C15": {
+        "level": "exploration",
+        "level_text": "PAE monitor: for every piece count 0..8, 0..4 fragments per piece and fragment lengths around the 8- and 64-byte boundaries (contents incl. bytes shaped like length prefixes) the library's output is compared with an independent encoder over whole pieces, decoded by an independent PAE decoder back to the pieces, and entered in a collision table together with boundary-shifted and piece-dropped variants of the same concatenation (no two different piece lists may share an encoding); a recording streaming writer must receive exactly the bytes a Vec receives.",
+        "level_note": "Trusted: the 10-line independent encoder/decoder. The digest/MAC adapters inside the backends are private; their effect is observed through tags and signatures in C03.",
+        "technique": "runtime differential and injectivity monitor (collision table) for the PAE encoder",
+        "stages": c15,
+        "floor": {"quick": 20000, "thorough": 300000},
     },
 }
